@@ -443,16 +443,24 @@ def c5_readyok_quit(fb, rep, cg):
                 to_disp = ml.path_avoiding((bid, -1), is_dispatch, is_read) is not None
                 if to_exit and not to_disp and not any(is_dispatch(e_) for e_ in ml.blocks[bid]['ev']):
                     skip.add(bid)
-            entries = [b_ for b_ in sorted(skip) if any(p_ not in skip and (p_ == rb or G_reaches(ml, rb, p_)) for p_ in ml.preds.get(b_, []))]
-            ok_all = bool(entries)
+            # every edge that enters the skip region: the branch condition on that edge (and what already guards its source)
+            edges = [(p_, b_) for b_ in sorted(skip) for p_ in ml.preds.get(b_, []) if p_ not in skip and (p_ == rb or G_reaches(ml, rb, p_))]
+            ok_all = bool(edges)
             details = []
-            for b_ in entries:
-                gs = G.guard_trees(ml, set(ml.blocks), b_)
-                if any(ap(_strip_c(c2)) == 'this.quit' and side2 for c2, side2 in gs):
+            for p_, b_ in edges:
+                gs = list(G.guard_trees(ml, set(ml.blocks), p_))
+                pt = ml.blocks[p_].get('term') or {}
+                if len(ml.blocks[p_]['succ']) == 2 and pt.get('cond') is not None:
+                    from ..core import implied_atoms
+                    gs += implied_atoms(eff_cond(pt), ml.blocks[p_]['succ'][0] == b_)
+                norm = []
+                for c2, side2 in gs:
+                    ce2, pol2 = strip_not(c2)
+                    norm.append((_strip_c(ce2), side2 == pol2))
+                if any(ap(c2) == 'this.quit' and side2 for c2, side2 in norm):
                     continue        # the quit command: it was dispatched
                 good = False
-                for c2, side2 in gs:
-                    c2 = _strip_c(c2)
+                for c2, side2 in norm:
                     if isinstance(c2, dict) and c2.get('k') == 'call':
                         last = cname(c2).split('::')[-1]
                         if last == 'empty' and side2 and (_strip_c(c2.get('recv')) or {}).get('id') == lid:
@@ -461,7 +469,7 @@ def c5_readyok_quit(fb, rep, cg):
                             good = True
                         if last == 'operator bool' and not side2 and any(is_read(n_) for n_ in walk(c2)):
                             good = True
-                details.append(' && '.join(('' if s2 else '!') + show(c2, 40) for c2, s2 in gs))
+                details.append(' && '.join(('' if s2 else '!') + show(c2, 40) for c2, s2 in norm))
                 ok_all = ok_all and good
             rep.ob(clause, 'K4 guard', 'protocol loop: a line that was read is dispatched; the loop is left without dispatching only when nothing was read (empty line or failbit)',
                    ok_all, R.site(ml, re_), 'exits taken without dispatching: %s' % details, ml.sname)
